@@ -5,13 +5,14 @@
 #                                     undoing, but leaves /repo untouched so that several can run at once.)
 . /verif/bin/env.sh
 cmd=$1; dir=$2; shift 2
+patch=$dir/patch.diff; [ -f $dir/patch.rebased.diff ] && patch=$dir/patch.rebased.diff
 tag=$(basename $dir)-$$
 case $cmd in
 confirm)
   wt=/tmp/wt-confirm-$tag
   git -C /repo worktree add -q --detach $wt HEAD || exit 2
   trap "git -C /repo worktree remove --force $wt" EXIT
-  (cd $wt && git apply $dir/patch.diff) || { echo "PATCH DOES NOT APPLY"; exit 2; }
+  (cd $wt && git apply $patch) || { echo "PATCH DOES NOT APPLY"; exit 2; }
   (cd $wt && go build ./... && go test -vet=off -count=1 ./... > /tmp/confirm-suite-$tag.log 2>&1); s=$?
   echo "suite with patch: exit $s"
   (cd $dir && timeout 900 bash demo.sh $wt > /tmp/confirm-demo-mut-$tag.log 2>&1); m=$?
@@ -24,7 +25,7 @@ run)
   wt=/tmp/wt-run-$tag
   git -C /repo worktree add -q --detach $wt HEAD || exit 2
   trap "git -C /repo worktree remove --force $wt" EXIT
-  (cd $wt && git apply $dir/patch.diff) || { echo "PATCH DOES NOT APPLY"; exit 2; }
+  (cd $wt && git apply $patch) || { echo "PATCH DOES NOT APPLY"; exit 2; }
   for p in "$@"; do
     REPO=$wt VERIF_EVIDENCE_DIR=/tmp/mut-evidence/$tag bash /verif/bin/check $p ${TIER:-quick} > /tmp/mutrun-$tag-$p.log 2>&1; e=$?
     echo "$(basename $dir) $p exit=$e"
